@@ -17,7 +17,8 @@ def main(tier):
             "every scope, reports a second match as ambiguous and exits early only for local inline-type names, and "
             "matches names only under `scope == current_scope or SEARCHABLE` (R-NOPRECEDENCE); Field.abbreviation "
             "is read only by the builder, the alias synthesiser, the formatter and the scope constructor, which "
-            "registers it PRIVATE (R-ABBREV); all symbol-resolver traversal actions receive their scope parameters on "
+            "registers it PRIVATE (R-ABBREV); a name enters a scope only in the else-branch of the duplicate test that reports "
+            "duplicate_name_error (R-DUPNAME); all symbol-resolver traversal actions receive their scope parameters on "
             "every IR path (R-TRAVPARAM on the product graph of the IR schema and the pattern). "
             "Not decided: that the resolved target is the intended one for arbitrary scope trees."))
     r, s = cx.repo, cx.schema
@@ -25,5 +26,6 @@ def main(tier):
     chk.run("R-NAMEDKINDS", P.namedkinds, r, s, cx.sites, floor=10)
     chk.run("R-NOPRECEDENCE", B.noprecedence, r, floor=3)
     chk.run("R-ABBREV", B.abbrev, r, floor=5)
+    chk.run("R-DUPNAME", B.dupname, r, floor=2)
     chk.run("R-TRAVPARAM", T.travparam, r, s, sr_sites, floor=30, control=lambda: T.control_travparam(r))
     return chk.finish()
